@@ -900,3 +900,12 @@ mut('C14', 'grid', _GLEN, """    def __contains__(self, row):
         return row in self._row
 
 """ + _GLEN, 'OK', name='refactor: explicit __contains__ on the row list')
+
+# ---- round 4 ----------------------------------------------------------------------------------------
+mut('C01', 'zoneinfo', "def timezone_name(dt, version=LATEST_VER):", "@functools.lru_cache(maxsize=1024)\ndef timezone_name(dt, version=LATEST_VER):", name='timezone_name memoised on the datetime')
+mut('C07', 'zincdumper', "def dump_scalar(scalar, version=LATEST_VER):", "@functools.lru_cache(maxsize=256)\ndef dump_scalar(scalar, version=LATEST_VER):", name='dump_scalar memoised on the value')
+_USEC = "            usec = int(frac_sec[:6].ljust(6, '0'))"
+mut('C05', 'jsonparser', _USEC, "            usec = int(float('0.' + frac_sec) * 1000000)", name='microseconds through float')
+mut('C02', 'jsonparser', _USEC, "            usec = int(frac_sec[:6]) * 10 ** (6 - len(frac_sec))", name='fraction scaled by its unsliced length')
+mut('C05', 'jsonparser', _USEC, "            usec = int(frac_sec[:6]) * 10 ** (6 - len(frac_sec[:6]))", 'OK', name='refactor: fraction scaled by its sliced length')
+mut('C07', 'jsonparser', _USEC, "            usec = int((frac_sec + '000000')[:6])", 'OK', name='refactor: pad then cut')
